@@ -371,7 +371,12 @@ class Check:
             st = json.load(open(os.path.join(out2, "stats.json")))
         except (OSError, ValueError):
             return False
-        return bool(st.get("fail_message")) and st.get("fail_message") == msg and os.path.exists(os.path.join(out2, "fail.case"))
+        # the same failure = the same shrunk case (the message may contain a process or thread id)
+        c1, c2 = os.path.join(r["out"], "fail.case"), os.path.join(out2, "fail.case")
+        if not (st.get("fail_message") and os.path.exists(c2)):
+            return False
+        same_case = os.path.exists(c1) and open(c1, "rb").read() == open(c2, "rb").read()
+        return same_case or st.get("fail_message") == msg
 
     # ------------------------------------------------------------------ evidence
     def merged(self):
